@@ -5,6 +5,7 @@ Everything derives from one splitmix64 state seeded by VERIF_SEED, so a seed mea
 same cases whatever happens on the Rust or the Lean side.  A case is a list of script
 lines: `case <id> <component> k=v ...`, optional `kh` lines, op lines, `end`.
 """
+import re
 import struct
 import sys
 
@@ -170,6 +171,9 @@ def variant(r, tier_all=True):
     keys = r.weighted([("trk", 5), ("u64", 2), ("str", 2)])
     hasher = r.weighted([("default", 3), ("random", 2), ("id", 1), ("zero", 2), ("fnv", 1)])
     s = "keys=%s hasher=%s" % (keys, hasher)
+    if hasher != "default":
+        # order in which the builders' value setters and (type-changing) hasher setters are applied; invisible to the model
+        s += " ord=%d" % r.below(2)
     if r.chance(1, 8):
         s += " pad=%d" % r.pick([8, 24, 40, 104])
     return s
@@ -402,8 +406,10 @@ def gen_wtinylfu(r, cid, nops, opts):
     prof = r.pick(["put", "get", "get", "churn", "read"])
     extra = dict(wsizes=1)
     table = profile_table(prof, extra)
+    var = opts.get("variant") or variant(r)
+    var = re.sub(r" ord=\d", "", var) + " ord=%d" % r.below(3)
     lines = ["case %d wtinylfu wcap=%d qcap=%d pcap=%d samples=%d fp=%s %s" %
-             (cid, w, q, p, samples, f64bits(fp), opts.get("variant") or variant(r))]
+             (cid, w, q, p, samples, f64bits(fp), var)]
     mode = r.below(3)
     for k in range(1, U + 1):
         if mode == 0:
@@ -513,15 +519,15 @@ def gen_ctor_grid():
                 add("rawlru cap=%d cb=%d keys=u64 hasher=%s" % (cap, cb, h), smoke)
     for p in (0, 1, 2, 3):
         for q in (0, 1, 2, 3):
-            for h in ("default", "zero"):
+            for h in ("default", "zero", "zero ord=1"):
                 add("slru pcap=%d qcap=%d keys=u64 hasher=%s" % (p, q, h), smoke)
     for size in (0, 1, 2, 3):
         for rr in ratios:
             for gr in ratios:
-                for h in ("default", "zero"):
+                for h in ("default", "zero", "zero ord=1"):
                     add("twoq size=%d rr=%s gr=%s keys=u64 hasher=%s" % (size, rr, gr, h), smoke)
     for size in (0, 1, 2, 3):
-        for h in ("default", "zero"):
+        for h in ("default", "zero", "zero ord=1"):
             add("arc size=%d keys=u64 hasher=%s" % (size, h), smoke)
     # every other public way of building the same configurations (default hasher): the model ignores `via=`
     for via in ("builder", "statbuilder", "setters", "frombuilder"):
@@ -549,8 +555,9 @@ def gen_ctor_grid():
             for p in (0, 1, 2):
                 for samples in (0, 1, 3):
                     for fp in (fps[0], fps[2], fps[3], NAN, fps[5]):
-                        add("wtinylfu wcap=%d qcap=%d pcap=%d samples=%d fp=%s keys=u64 hasher=zero" % (w, q, p, samples, fp),
-                            ["kh 1 1", "kh 2 ffffffffffffffff", "kh 3 0", "kh 4 100000000"] + smoke)
+                        for ord_ in (0, 1, 2):
+                            add("wtinylfu wcap=%d qcap=%d pcap=%d samples=%d fp=%s keys=u64 hasher=zero ord=%d" % (w, q, p, samples, fp, ord_),
+                                ["kh 1 1", "kh 2 ffffffffffffffff", "kh 3 0", "kh 4 100000000"] + smoke)
     for via in ("withsizes", "builder", "buildernew", "frombuilder"):
         for w in (0, 1, 2, 5):
             for q in (0, 1, 3):
